@@ -5,6 +5,8 @@ Property theorems only; helper lemmas live in `Dtn7.Lemmas.Reports`, the model a
 -/
 import Dtn7.Model.Reports
 import Dtn7.Lemmas.Reports
+import Dtn7.Model.ReportsCbor
+import Dtn7.Lemmas.ReportsCbor
 import Dtn7.Gen.C15
 
 namespace Dtn7.Props.C15
@@ -181,13 +183,13 @@ theorem gen_bundleDeletion : Dtn7.Gen.C15.bundleDeletion =
     "bp.PurgeConstraints()",
     "_ = bp.Sync()"] := by rfl
 
-/-- The five call sites of `SendStatusReport` with the conditions they sit under. -/
+/-- The call sites of `SendStatusReport` outside `localDelivery` (reception by flag, reception by an
+unsupported block's flag, forwarding, deletion) with the conditions they sit under. -/
 theorem gen_reportSites : Dtn7.Gen.C15.reportSites =
     ["receive | unless len(bp.Constraints) > 0 | if bp.MustBundle().PrimaryBlock.BundleControlFlags.Has(bpv7.StatusRequestReception) | SendStatusReport(bp, bpv7.ReceivedBundle, bpv7.NoInformation)",
     "receive | unless len(bp.Constraints) > 0 | for i := len(bp.MustBundle().CanonicalBlocks) - 1; i >= 0; i-- | unless bpv7.GetExtensionBlockManager().IsKnown(cb.TypeCode()) | if cb.BlockControlFlags.Has(bpv7.StatusReportBlock) | SendStatusReport(bp, bpv7.ReceivedBundle, bpv7.BlockUnsupported)",
     "forward | unless bp.MustBundle().IsLifetimeExceeded() | if bundleSent | if bp.MustBundle().PrimaryBlock.BundleControlFlags.Has(bpv7.StatusRequestForward) | SendStatusReport(bp, bpv7.ForwardedBundle, bpv7.NoInformation)",
-    "localDelivery | if bp.MustBundle().PrimaryBlock.BundleControlFlags.Has(bpv7.StatusRequestDelivery) | SendStatusReport(bp, bpv7.DeliveredBundle, bpv7.NoInformation)",
-    "bundleDeletion | if bp.MustBundle().PrimaryBlock.BundleControlFlags.Has(bpv7.StatusRequestDeletion) | SendStatusReport(bp, bpv7.DeletedBundle, reason)"] := by rfl
+      "bundleDeletion | if bp.MustBundle().PrimaryBlock.BundleControlFlags.Has(bpv7.StatusRequestDeletion) | SendStatusReport(bp, bpv7.DeletedBundle, reason)"] := by rfl
 
 /-- The callers of `bundleDeletion` with their conditions and reasons. -/
 theorem gen_deletionSites : Dtn7.Gen.C15.deletionSites =
@@ -202,13 +204,22 @@ theorem gen_deletionSites : Dtn7.Gen.C15.deletionSites =
 theorem gen_bundleSentSites : Dtn7.Gen.C15.bundleSentSites =
     ["forward | unless bp.MustBundle().IsLifetimeExceeded() | for range nodes | go | func literal | else of (err := node.Send(*bp.MustBundle()); err != nil) | func literal | bundleSent = true"] := by rfl
 
+/-- The fifth call site, in `localDelivery`: whatever else it is conditioned on, it reports
+`DeliveredBundle`/`NoInformation` and sits under the bundle's delivery-request flag. -/
+theorem gen_deliveryReport :
+    Dtn7.Gen.C15.deliveryReportCall = "SendStatusReport(bp, bpv7.DeliveredBundle, bpv7.NoInformation)" ∧
+    Dtn7.Gen.C15.deliveryReportFlagGuarded = true := by decide
+
 /-- The model variant of the current tree. `reportOnlyOnSuccess` is read from the source: does the
 delivery report in `localDelivery` depend on `AgentManager.Deliver` having succeeded? While it
 does not (D16), `localDelivery` is exactly the function the model mirrors; once it does, only the
 generated fact flips and `report_justified_code` becomes the full statement. -/
 theorem gen_localDelivery :
     Dtn7.Gen.C15.reportOnlyOnSuccess = true ∨
-    (Dtn7.Gen.C15.reportOnlyOnSuccess = false ∧ Dtn7.Gen.C15.localDelivery =
+    (Dtn7.Gen.C15.reportOnlyOnSuccess = false ∧
+     Dtn7.Gen.C15.deliveryReportSite =
+      ["localDelivery | if bp.MustBundle().PrimaryBlock.BundleControlFlags.Has(bpv7.StatusRequestDelivery) | SendStatusReport(bp, bpv7.DeliveredBundle, bpv7.NoInformation)"] ∧
+     Dtn7.Gen.C15.localDelivery =
     ["if bp.MustBundle().IsAdministrativeRecord()",
       "  if !c.checkAdministrativeRecord(bp)",
       "    c.bundleDeletion(bp, bpv7.NoInformation)",
@@ -222,7 +233,7 @@ theorem gen_localDelivery :
       "_ = bp.Sync()"]) := by
   first
     | exact Or.inl rfl
-    | exact Or.inr ⟨rfl, rfl⟩
+    | exact Or.inr ⟨rfl, rfl, rfl⟩
 
 /-- The configuration the current source selects. -/
 def codeCfg : Cfg := ⟨Dtn7.Gen.C15.reportOnlyOnSuccess⟩
@@ -333,7 +344,7 @@ theorem ref_is_exact_id (cfg : Cfg) (n : Node) (s : Subject) (now : Nat) (fl : F
     (hr : r ∈ flowReports cfg n s now fl) :
     r.ref = s.id ∧ (s.isFragment = true → r.ref.frag = some (s.fragOffset, s.totalLen)) ∧
     (s.isFragment = false → r.ref.frag = none) := by
-  obtain ⟨p, reason, _, hs⟩ := Lemmas.mem_flowReports_ssr hr
+  obtain ⟨p, reason, _, _, hs⟩ := Lemmas.mem_flowReports_ssr hr
   have hid := (Lemmas.ssr_some hs).2.2.2.2.2.2.2.2.1
   refine ⟨hid, ?_, ?_⟩ <;> intro hf <;> simp [hid, Subject.id, hf]
 
@@ -343,7 +354,7 @@ theorem time_iff_requested (cfg : Cfg) (n : Node) (s : Subject) (now : Nat) (fl 
     (hr : r ∈ flowReports cfg n s now fl) :
     ∀ it ∈ r.items, (it.time.isSome = true ↔ (it.asserted = true ∧ s.reqTime = true)) ∧
       (it.time.isSome = true → it.time = some now) := by
-  obtain ⟨p, reason, _, hs⟩ := Lemmas.mem_flowReports_ssr hr
+  obtain ⟨p, reason, _, _, hs⟩ := Lemmas.mem_flowReports_ssr hr
   have hi := (Lemmas.ssr_some hs).2.2.2.2.2.2.1
   intro it hit
   rw [hi] at hit
@@ -357,9 +368,34 @@ theorem report_addressing (cfg : Cfg) (n : Node) (s : Subject) (now : Nat) (fl :
     (hr : r ∈ flowReports cfg n s now fl) :
     r.destination = s.reportTo ∧ r.lifetime = 3600000 ∧
     (r.source = n.id ∨ (r.source = s.receiver ∧ n.hasEndpoint s.receiver = true)) := by
-  obtain ⟨p, reason, _, hs⟩ := Lemmas.mem_flowReports_ssr hr
+  obtain ⟨p, reason, _, _, hs⟩ := Lemmas.mem_flowReports_ssr hr
   have h := Lemmas.ssr_some hs
   exact ⟨h.2.2.2.1, h.2.2.2.2.2.1, h.2.2.2.2.2.2.2.2.2⟩
+
+/-- **On the wire**: the payload of every report — `[1, [items, reason, source, [time, seq]
+(, offset, total)]]`, 4 or 6 elements depending on the fragment flag — is read back by a receiver
+(`ReadAdministrativeRecord` / `StatusReport.UnmarshalCbor`) as exactly the record that was written,
+every byte consumed; in particular the receiver obtains the subject's exact ID, fragment offset and
+total length included. (All numbers below 2^64, the subject's source an endpoint the codec
+accepts.) -/
+theorem wire_exact_id (cfg : Cfg) (n : Node) (s : Subject) (now : Nat) (fl : Flow) (r : Report)
+    (hr : r ∈ flowReports cfg n s now fl)
+    (hsrc : s.source.wf) (hnow : u64 now) (ht : u64 s.time) (hq : u64 s.seq)
+    (hfo : u64 s.fragOffset) (hft : u64 s.totalLen) :
+    decAdminRecord (encAdminRecord r.record) = .ok (r.record, []) ∧ r.record.ref = s.id := by
+  obtain ⟨p, reason, _, hreason, hs⟩ := Lemmas.mem_flowReports_ssr hr
+  have hw := Lemmas.record_wf_of_ssr hs hreason hsrc hnow ht hq hfo hft
+  have := Lemmas.decAdminRecord_enc r.record [] hw
+  simp only [List.append_nil] at this
+  exact ⟨this, (Lemmas.ssr_some hs).2.2.2.2.2.2.2.2.1⟩
+
+/-- The fragment flag decides between the 4- and the 6-element form. -/
+theorem wire_length (rec : Record) :
+    ∃ rest, encStatusReport rec = Dtn7.Cbor.encArray (if rec.ref.frag.isSome then 6 else 4) ++ rest := by
+  refine ⟨(Dtn7.Cbor.encArray rec.items.length ++ encItems rec.items) ++
+    Dtn7.Cbor.encUInt rec.reason ++ encBundleId rec.ref, ?_⟩
+  simp only [encStatusReport, BundleId.len, List.append_assoc]
+  split <;> rfl
 
 /-- **Completeness of the model** (the converse direction, checked against the code by the
 correspondence run, not part of the property statement): when the guards allow reporting, a status
@@ -402,6 +438,12 @@ example : (flowReports ⟨false⟩ witnessNode witnessSubject 0 (.receive .noAge
 example : flowReports ⟨true⟩ witnessNode witnessSubject 0 (.receive .noAgent) = [] := by decide
 example : reportingAllowed witnessNode exSubject = true := by decide
 example : (Flow.receive .forwarded).wellFormed = true := by decide
+example : (match decAdminRecord (encAdminRecord witnessReport.record) with
+    | .ok (rec, rest) => rec == witnessReport.record && rest == []
+    | .error _ => false) = true := by decide
+example : (flowReports ⟨true⟩ witnessNode exSubject 5 (.receive .forwarded)).map
+    (fun r => (encAdminRecord r.record).length) = [27, 27, 27] := by decide
+example : exSubject.source.wf := ⟨by decide, by decide, by decide, by decide⟩
 example : nonAdminEvents [⟨witnessNode, exSubject, 5, .receive .forwarded⟩] = 3 := by decide
 
 end Dtn7.Props.C15
